@@ -15,6 +15,7 @@ import Rare.Proofs.C07NumF64Var
 import Rare.Proofs.C07ModeNaN
 import Rare.Model.C07NumErr
 import Rare.Proofs.C07Sqrt
+import Rare.Proofs.C07NumHist
 import Rare.Gen.C07
 /-!
 C07 – Aggregators compute the exact fold of their sample history.
@@ -1451,6 +1452,110 @@ example : ∀ x ∈ [F64.ofRat (1/10), F64.ofRat (2/10), F64.ofRat (3/10)],
 example : (runFv false [F64.ofRat (1/10), F64.ofRat (2/10), F64.ofRat (3/10)]).mean.toRat ≠
     mean ([F64.ofRat (1/10), F64.ofRat (2/10), F64.ofRat (3/10)].map F64.toRat) := by decide +kernel
 
+/-! ## `Analyze()` between the samples: the numerical aggregator as a state machine
+
+`Model/C07NumHist.lean`.  `Analyze()` is not a pure accessor – it sorts `s.values` IN PLACE and hands out a view of that
+slice – and `rare analyze --extra` calls it on every 100 ms refresh, between the samples.  A history is a list of calls
+`Samplef(v)` / `Sample(element)` / `Analyze()`; `HistRun` runs it with the sort specified by its contract only (any sorted
+arrangement, Go's pdqsort is not stable), `histRun` is the executable instance the correspondence op `agg numh` compares
+with the real aggregator after EVERY prefix of the history. -/
+
+/-- **Every schedule of `Analyze()` calls gives the same answers.**  For every history `ops` of calls on a new aggregator,
+every run `h` of it (any sorting algorithm), with `l` the samples handed to `Samplef` in arrival order:
+
+1. `Count`, `Mean`, `Variance`, `StdDev`, `Min`, `Max`, `ParseErrors` are those of the plain `Samplef` fold over `l`
+   (`runFv`: everything the other `num_f64_*` theorems say about it applies) – `Analyze()` touches no moment;
+2. the stored values are an arrangement of the kept samples: nothing is lost or duplicated by the in-place sorts;
+3. one view per `Analyze()` call, and the view of EVERY `Analyze()` – however many came before it, wherever they were –
+   is a sorted arrangement of ALL samples kept before that call;
+4. so is the view `o` of any further `Analyze()` on the final state, and its `Median()`, every `Quantile(p)` and `Mode()`
+   are those of a fresh sort of the kept samples (up to the sign of a zero / the identity of a NaN): `num_f64_order_stats`,
+   `num_f64_mode_any` describe them.  The order statistics depend on the multiset of samples only – not on the arrival
+   order, not on the refresh schedule;
+5. the executable machine `histRun` (merge sort in place) is one such run. -/
+theorem num_f64_analyze_any_schedule (keep rev : Bool) (ops : List NumOp) (s : NumF) (vs : List (List F64))
+    (h : HistRun keep rev NumF.new ops s vs) :
+    let l := histSamples ops
+    let kept := keptOf keep l
+    (s.samples = l.length ∧ s.mean = (runFv keep l).mean ∧ s.varianceF = (runFv keep l).varianceF ∧
+      s.stdDev = (runFv keep l).stdDev ∧ s.min = (runFv keep l).min ∧ s.max = (runFv keep l).max ∧
+      s.parseErrors = ops.countP NumOp.isParseError) ∧
+    s.values.Perm kept ∧
+    (vs.length = ops.countP NumOp.isAnalyze ∧
+      ∀ pre post, ops = pre ++ NumOp.analyze :: post →
+        ∃ o, vs[pre.countP NumOp.isAnalyze]? = some o ∧ IsSortedF rev o (keptOf keep (histSamples pre))) ∧
+    (∀ o, IsSortedF rev o s.values →
+      IsSortedF rev o kept ∧
+      sameF (medianF o) (medianF (analyzeF rev kept)) = true ∧
+      (∀ p, ∃ x x', quantileF o p = .ok x ∧ quantileF (analyzeF rev kept) p = .ok x' ∧ sameF x x' = true) ∧
+      sameF (modeF o) (modeF (analyzeF rev kept)) = true) ∧
+    HistRun keep rev NumF.new ops (histRun keep rev ops).1 (histRun keep rev ops).2 := by
+  intro l kept
+  obtain ⟨⟨h1, h2, h3, h4, h5, h6, _⟩, hperm⟩ := histRun_final keep rev ops s vs h
+  have hv : s.varianceF = (runFv keep l).varianceF := by
+    unfold NumF.varianceF Numerical.varianceOf
+    rw [h1, h3]
+  refine ⟨⟨?_, h2, hv, ?_, h4, h5, h6⟩, hperm, ⟨histRun_views_length keep rev h, ?_⟩, ?_, histRun_is_run keep rev ops NumF.new⟩
+  · rw [h1]; exact runFv_samples keep l
+  · unfold NumF.stdDev; rw [hv]
+  · intro pre post e
+    exact histRun_view keep rev ops s vs h pre post e
+  · intro o ho
+    have hs : IsSortedF rev o kept := ⟨ho.1.trans hperm, ho.2⟩
+    have hf := analyzeF_sorted rev kept
+    exact ⟨hs, medianF_sorted_unique rev o _ kept hs hf, fun p => quantileF_sorted_unique rev o _ kept hs hf p,
+      modeF_sorted_unique rev o _ kept hs hf⟩
+
+/-- **When could a re-sort be skipped?**  Appending a sample `v` to a non-empty sorted slice `o` leaves it sorted IFF `v`
+is not before the LAST stored value in the sort order – ascending: `v` is not below it; with `Reverse`: `v` is not ABOVE
+it (the direction flips with the flag; NaN sorts below every number in both).  In every other case the slice `Analyze()`
+finds is unsorted and it has to sort again – which it always does. -/
+theorem num_f64_append_keeps_sorted_iff (rev : Bool) (o l : List F64) (last v : F64) (h : IsSortedF rev o l)
+    (hl : o.getLast? = some last) :
+    IsSortedF rev (o ++ [v]) (l ++ [v]) ↔ (if rev then goLess last v else goLess v last) = false :=
+  sorted_append_iff rev o l last v h hl
+
+/-- Just outside: the ASCENDING test `v >= last` does not license skipping the sort when `Reverse` is set.  Samples 1, 2,
+a refresh (stored: 2, 1), then 3: `3 >= 1`, yet `2, 1, 3` is not sorted for `Reverse`; read as it stands its median would
+be 1 and its mode 2, while EVERY run of the aggregator (which sorts again) answers median 2 and mode 3 at the second
+`Analyze()`.  (This is the history with which `agg numh` catches seeded/C07-analyze-ordered-flag.) -/
+theorem num_f64_stale_order_counterexample :
+    let one := F64.ofInt 1; let two := F64.ofInt 2; let three := F64.ofInt 3
+    IsSortedF true [two, one] [one, two] ∧ F64.le one three = true ∧
+    ¬ IsSortedF true [two, one, three] [one, two, three] ∧
+    medianF [two, one, three] = one ∧ modeF [two, one, three] = two ∧
+    (∀ s vs, HistRun true true NumF.new [.samplef one, .samplef two, .analyze, .samplef three, .analyze] s vs →
+      ∃ o, vs[1]? = some o ∧ sameF (medianF o) two = true ∧ sameF (modeF o) three = true) := by
+  intro one two three
+  have hs : IsSortedF true [two, one] [one, two] := ⟨by decide +kernel, by decide +kernel⟩
+  refine ⟨hs, by decide +kernel, ?_, by decide +kernel, by decide +kernel, ?_⟩
+  · intro hbad
+    have := (sorted_append_iff true [two, one] [one, two] one three hs rfl).mp hbad
+    revert this
+    decide +kernel
+  · intro s vs h
+    obtain ⟨o, ho, hso⟩ := histRun_view true true _ s vs h [.samplef one, .samplef two, .analyze, .samplef three] [] rfl
+    have h3 : IsSortedF true [three, two, one] [one, two, three] := ⟨by decide +kernel, by decide +kernel⟩
+    have hso' : IsSortedF true o [one, two, three] := hso
+    refine ⟨o, ho, ?_, ?_⟩
+    · have := medianF_sorted_unique true o _ _ hso' h3
+      have e : medianF [three, two, one] = two := by decide +kernel
+      rw [e] at this; exact this
+    · have := modeF_sorted_unique true o _ _ hso' h3
+      have e : modeF [three, two, one] = three := by decide +kernel
+      rw [e] at this; exact this
+
+/-- a history with refreshes, a parse error and a NaN: hypotheses of `num_f64_analyze_any_schedule` on the executable run -/
+def exHistOps : List NumOp :=
+  [.analyze, .samplef (F64.ofInt 1), .samplef (F64.ofInt 2), .analyze, .sample [120], .samplef F64.nan, .sample [51], .analyze]
+example : HistRun true true NumF.new exHistOps (histRun true true exHistOps).1 (histRun true true exHistOps).2 :=
+  histRun_is_run true true exHistOps NumF.new
+example : (histRun true true exHistOps).1.parseErrors = 1 ∧ (histRun true true exHistOps).1.samples = 4 ∧
+    histSamples exHistOps = [F64.ofInt 1, F64.ofInt 2, F64.nan, F64.ofInt 3] ∧ exHistOps.countP NumOp.isAnalyze = 3 := by
+  decide +kernel
+example : IsSortedF true [F64.ofInt 2, F64.ofInt 1] [F64.ofInt 1, F64.ofInt 2] ∧
+    [F64.ofInt 2, F64.ofInt 1].getLast? = some (F64.ofInt 1) := ⟨⟨by decide +kernel, by decide +kernel⟩, rfl⟩
+
 /-! ## `rare reduce` with the static optimiser on (C07 × C10)
 
 `Model/C07AccCompile.lean`: the configuration calls with TEMPLATES, compiled by the shared expression model
@@ -1680,6 +1785,25 @@ theorem sample_sources_match :
       "item.submatches = insertAti64(item.submatches, idx, 0)", "}", "return idx", "} else {", "return idx", "}"] ∧
     Gen.C07.insertAlphanumericSource = ["for i, val := range slice {", "if ele < val {", "ret = insertAt(slice, i, ele)", "idx = i",
       "return", "}", "}", "idx = len(slice)", "ret = append(slice, ele)", "return"] :=
+  ⟨rfl, rfl, rfl, rfl, rfl, rfl⟩
+
+/-- **The aggregator is still the state machine the model runs** (`Model/C07NumHist.lean`): its state is the eight fields
+below (no cached "already sorted" flag or other hidden state), `Samplef` appends the sample under `KeepValuesForAnalysis`
+and nothing else touches `s.values`, `Sample` counts a parse error or calls `Samplef`, and `Analyze()` sorts `s.values`
+unconditionally – ascending or reversed by `s.config.Reverse` – and returns the view `s.values[0:len(s.values)]`; a
+`StatisticalAnalysis` is that one slice.  (seeded/C07-analyze-ordered-flag adds the field `ordered` and guards the sort.) -/
+theorem analyze_machine_matches_source :
+    Gen.C07.numericalFields = ["samples uint64", "mean float64", "variance float64", "min float64", "max float64",
+      "parseErrors uint64", "values []float64", "config *NumericalConfig"] ∧
+    Gen.C07.analysisFields = ["orderedValues []float64"] ∧
+    Gen.C07.numericalConfigFields = ["Reverse bool", "KeepValuesForAnalysis bool"] ∧
+    Gen.C07.samplefSource = ["s.samples++", "oldMean := s.mean", "s.mean += (val - oldMean) / float64(s.samples)",
+      "s.variance += (val - oldMean) * (val - s.mean)", "if s.config.KeepValuesForAnalysis {", "s.values = append(s.values, val)", "}",
+      "if val < s.min {", "s.min = val", "}", "if val > s.max {", "s.max = val", "}"] ∧
+    Gen.C07.numSampleSource = ["val, err := strconv.ParseFloat(element, 64)", "if err != nil {", "s.parseErrors++", "} else {",
+      "s.Samplef(val)", "}"] ∧
+    Gen.C07.analyzeSource = ["if s.config.Reverse {", "sort.Sort(sort.Reverse(sort.Float64Slice(s.values)))", "} else {",
+      "sort.Float64s(s.values)", "}", "out := &StatisticalAnalysis{ orderedValues: s.values[0:len(s.values)], }", "return out"] :=
   ⟨rfl, rfl, rfl, rfl, rfl, rfl⟩
 
 
